@@ -32,7 +32,11 @@ ENGINE_SOURCES = ["engine/vmc_rt.cpp", "engine/vmc_explore.cpp"]
 # flavour -> (compiler, flags for instrumented TUs, link flags)
 FLAVOURS = {
     "asan": ("g++", ["-fsanitize=address", "-fno-omit-frame-pointer"], ["-fsanitize=address"]),
-    "tsan": ("g++", ["-fsanitize=thread", "-fno-omit-frame-pointer"], ["-fsanitize=thread"]),
+    # clang: only it has -fsanitize-ignorelist (harness monitors must stay uninstrumented).  Its runtime is static and
+    # keeps per-thread state in the executable's TLS block, so the scheduler does not pool/reset OS threads in this flavour
+    "tsan": ("clang++", ["-fsanitize=thread", "-fno-omit-frame-pointer",
+                         "-fsanitize-ignorelist=" + os.path.join(VERIF, "engine/tsan_ignore.txt")],
+             ["-fsanitize=thread"]),
     "plain": ("g++", [], []),
 }
 # configuration -> defines (C20's matrix); "verif" is the default exploring configuration
@@ -137,7 +141,7 @@ class Builder:
         """exes: list of dict(name, sources=[...], lib=bool|list, wraps=[...], defs=[...], skip_lib=[...])"""
         jobs = {}
         for s in ENGINE_SOURCES:
-            obj = os.path.join(BUILD, "engine", os.path.basename(s) + ".o")
+            obj = os.path.join(BUILD, "engine-" + self.cxx, os.path.basename(s) + ".o")
             jobs[obj] = (os.path.join(VERIF, s), obj, self.engine_cmd())
         for s in LIB_SOURCES:
             obj = os.path.join(self.root, "lib", s.replace("/", "_") + ".o")
@@ -167,7 +171,7 @@ class Builder:
             return errors
         # link
         lib_objs = {s: os.path.join(self.root, "lib", s.replace("/", "_") + ".o") for s in LIB_SOURCES}
-        eng_objs = [os.path.join(BUILD, "engine", os.path.basename(s) + ".o") for s in ENGINE_SOURCES]
+        eng_objs = [os.path.join(BUILD, "engine-" + self.cxx, os.path.basename(s) + ".o") for s in ENGINE_SOURCES]
 
         def link(e):
             exe = os.path.join(self.root, "bin", e["name"])
